@@ -46,6 +46,7 @@ import (
 	"errors"
 	"fmt"
 	"io"
+	"net"
 	"strings"
 
 	"github.com/cloudwego/hertz/internal/bytesconv"
@@ -225,6 +226,12 @@ func readBodyIdentity(r network.Reader, maxBodySize int, dst []byte) ([]byte, er
 		if nn == 0 {
 			_, err := r.Peek(1)
 			if err != nil {
+				// the end of the connection ends such a body; a read that timed
+				// out has not seen the end
+				var ne net.Error
+				if errors.As(err, &ne) && ne.Timeout() {
+					return dst[:offset], err
+				}
 				return dst[:offset], nil
 			}
 			nn = r.Len()
